@@ -129,22 +129,27 @@ CLAIMED["C05"] = dict(
    design="DESIGN.md section 4, C05")
 
 CLAIMED["C06"] = dict(
-   technique="Lean 4 proof (lexer round trip of the rendered literal, compositional single-pass substitution law, template-grammar theorem, parameter-block decoding round trip) + extracted regex/escape facts + differential execution",
+   technique="Lean 4 proof (lexer round trip of the rendered literal, compositional single-pass substitution law, template-grammar theorem, parameter-block decoding round trip, also for the parameter decoder translated from the source on every run) + extracted regex/escape facts + differential execution",
    text="Theorems in lean/MimicProps/C06.lean: every string value rendered as a literal lexes back to itself and ends exactly at its closing quote "
         "(for every escape table with \\\\ -> \\); substitution is a single pass (interp (a++b) = interp a then interp b on the left-over values), "
         "leaves placeholder-free text unchanged and consumes exactly phCount values; on the property's template grammar it replaces exactly "
         "the ? outside quoted runs (named _partial: mixed quote kinds inside one literal are outside the quantifier); _read_params decodes any "
-        "client-encoded block (NULL bitmap, all integer widths/signedness, strings) and long data concatenates in send order. Tie: regex source, "
+        "client-encoded block (NULL bitmap, all integer widths/signedness, strings) and long data concatenates in send order; CODE LEVEL: "
+        "_read_params and _read_param_value of packets.py are translated statement by statement on every run (harness/pytrans2.py -> "
+        "Mimic/Extracted/ParsersCode.lean) and proved equal to the model for every input (read_params_is_code, code_params_decode_roundtrip). "
+        "Tie: translated parsers; regex source, "
         "escape replacements, single-pass call shape and string type set re-extracted; real prepare/long-data/execute (incl. failing "
         "applications, repeated executions) compared with the model; tokenizer oracle on the SQL the application receives.",
    note=TB + "Modelled, not verified: Python re (only the fragment REGEX_PARAM uses is given a semantics), sqlglot's tokenizer (oracle), str(float).",
    design="DESIGN.md section 4, C06")
 CLAIMED["C17"] = dict(
-   technique="Lean 4 proof (round trip client encoding -> parse_com_query / parse_com_stmt_execute, dict semantics, independence of SQL from attributes) + differential execution",
+   technique="Lean 4 proof (round trip client encoding -> parse_com_query / parse_com_stmt_execute, dict semantics, independence of SQL from attributes; parse_com_query translated from the source on every run and proved equal to the model) + differential execution",
    text="Theorems in lean/MimicProps/C17.lean: with the capability, the payload a client builds from any attribute list and SQL text parses to "
         "exactly that text and mapping (dict semantics; identity for distinct names); without it the whole payload is the SQL text and the mapping "
         "is empty for every payload; for execute the first numParams entries are bound and the rest is the mapping, and the SQL depends only on the "
-        "positional values. Tie: real connection driven with attribute lists of 0..17 entries of all kinds, 0..8 parameters, SQL starting with "
+        "positional values; CODE LEVEL: parse_com_query (with _read_params, NullBitmap, read_str_len ...) is translated from packets.py on every run "
+        "(harness/pytrans2.py) and proved equal to the model for every payload (parse_com_query_is_code, code_attrs_roundtrip_query, "
+        "code_no_attrs_without_capability). Tie: translated parsers; real connection driven with attribute lists of 0..17 entries of all kinds, 0..8 parameters, SQL starting with "
         "0x00-0x02, both capability settings, compared with the model; oracle on what the application received.",
    note=TB + "Modelled, not verified: codec (utf8 in these runs), struct float unpacking (bit patterns compared).",
    design="DESIGN.md section 4, C17")
@@ -211,11 +216,15 @@ CLAIMED["C01"] = dict(
    design="DESIGN.md section 4, C01")
 
 CLAIMED["C07"] = dict(
-   technique="Lean 4 proof (total parsers by construction; loop bounds for read_str_null / connect attributes / parameter types; machine theorems for arbitrary scripts) + differential execution of mutated packets against the Lean parsers + work-budget / liveness measurement on the real server",
+   technique="Lean 4 proof (total parsers by construction; loop bounds for read_str_null / connect attributes / parameter types, termination of the loops of the parsers translated from the source on every run; machine theorems for arbitrary scripts) + differential execution of mutated packets against the Lean parsers + work-budget / liveness measurement on the real server",
    text="Theorems in lean/MimicProps/C07.lean: every model parser is a total function (kernel-accepted, no partial); read_str_null consumes at most the input; the "
         "connect-attribute loop needs no more iterations than input bytes whatever length is claimed (fuel independence); a parameter block claiming n types needs 2n "
         "bytes; for ANY script a packet induces, the connection writes the response or a prefix closed by exactly one ERR and is idle again or terminates (C03 instance); "
-        "a rejected command payload gives exactly one ERR and stays idle; a rejected handshake gives one ERR and is closed and released (C01/C10 instances). Tie: mutated "
+        "a rejected command payload gives exactly one ERR and stays idle; a rejected handshake gives one ERR and is closed and released (C01/C10 instances); CODE LEVEL: "
+        "the client-packet parsers of packets.py (handshake response, change user, connect attributes, query, parameter blocks, statement commands) and read_str_null "
+        "are translated from the source on every run (harness/pytrans2.py); every while loop of the translation terminates within the translator's fuel for every input "
+        "(code_loops_terminate), read_str_null equals the model, a parameter block that claims more parameters than bytes is rejected (code_parameter_loop_bounded). Tie: "
+        "translated parsers; mutated "
         "handshake responses / COM_QUERY attribute blocks through the real parsers vs Mimic.Packets / Mimic.Params (same parse or both reject); every mutated packet at "
         "every session position on a real server under a sys.monitoring line budget with a witness connection, a newcomer, clean and abrupt departure of the "
         "offender and a registry check. Partial: that the Python interpreter does bounded work is measured, not proved.",
